@@ -105,18 +105,37 @@ def run(ctx):
     n = 4000 if ctx.quick else 100000
     lat_grid = [0, 1, 2, 45_000_000, 89_999_999, 90_000_000, 12_345_345] + [rng.randrange(0, 90_000_001) for _ in range(n)]
     lon_grid = [0, 1, 2, 24_668_866, 180_000_000, 359_999_999] + [rng.randrange(0, 360_000_000) for _ in range(n)]
-    for kind, grid in (("lat", lat_grid), ("lon", lon_grid)):
-        for m in grid:
-            x = m / 1e6
-            r = {"kind": kind, "micro": pair(m), "back_equal": False, "err": ""}
-            try:
-                raw = int.from_bytes(MBXML.write_latitude(x) if kind == "lat" else MBXML.write_longitude(x), "big")
-                back = round((raw * 90) / 2 ** 31, 6) if kind == "lat" else round((raw * 360) / 2 ** 32, 6)
-                r["back_equal"] = bool(back == round(x, 6))
-            except Exception as ex:  # noqa
-                r["err"] = type(ex).__name__
-            GEO.append(r)
-            ctx.count(f"g{kind}{m}")
+    # the XML view is the library's own (MBXMLDocument.as_xml of a report carrying the coordinates in a point-2d, circle-2d or
+    # point-3d element), not a formula of the harness
+    import re
+    from copy import copy
+    from okdmr.dmrlib.motorola.lrrp import LRRP
+    from okdmr.dmrlib.motorola.mbxml import MBXMLDocument, MBXMLDocumentIdentifier, MBXMLTokenType
+    rep_id = MBXMLDocumentIdentifier.LRRP_ImmediateLocationReport_NCDT
+    rep_cfg = LRRP.get_configuration(rep_id)
+
+    def xml_view(tid, value):
+        doc = MBXMLDocument(document_id=rep_id, elements_config=rep_cfg[MBXMLTokenType.ELEMENT_TOKEN], attributes_config=rep_cfg[MBXMLTokenType.ATTRIBUTE_TOKEN])
+        t = copy(rep_cfg[MBXMLTokenType.ELEMENT_TOKEN][tid])
+        t.token_id, t.value = tid, value
+        doc.parts.append(t)
+        return doc.as_xml()
+
+    for k, (mlat, mlon) in enumerate(zip(lat_grid, lon_grid)):
+        lat, lon = mlat / 1e6, mlon / 1e6
+        rl = {"kind": "lat", "micro": pair(mlat), "back_equal": False, "err": ""}
+        ro = {"kind": "lon", "micro": pair(mlon), "back_equal": False, "err": ""}
+        try:
+            wl, wo = MBXML.write_latitude(lat), MBXML.write_longitude(lon)
+            tid, value = [(0x66, (wl, wo)), (0x51, (wl, wo, 12.5)), (0x69, (wl, wo, -3.25))][k % 3]
+            xml = xml_view(tid, value)
+            rl["back_equal"] = bool(float(re.search(r"<lat>([^<]+)</lat>", xml).group(1)) == round(lat, 6))
+            ro["back_equal"] = bool(float(re.search(r"<long>([^<]+)</long>", xml).group(1)) == round(lon, 6))
+        except Exception as ex:  # noqa
+            rl["err"] = ro["err"] = type(ex).__name__
+        GEO += [rl, ro]
+        ctx.count(f"glat{mlat}")
+        ctx.count(f"glon{mlon}")
     # date-times
     times = [datetime.datetime(2000, 1, 1, 0, 0, 0), datetime.datetime(2099, 12, 31, 23, 59, 59), datetime.datetime(2003, 6, 30, 7, 30, 0),
              datetime.datetime(2024, 2, 29, 12, 0, 1), datetime.datetime(2023, 2, 28, 23, 59, 59), datetime.datetime(2000, 12, 31, 0, 0, 59)]
@@ -129,9 +148,7 @@ def run(ctx):
             arg = rng.choice([t, t.strftime("%Y%m%d%H%M%S"), int(t.strftime("%Y%m%d%H%M%S"))])
             w = MBXML.write_infotime(arg)
             r["w"] = list(w)
-            bits = bytes_to_bits(w)
-            txt = (f"{ba2int(bits[0:-26]):4}{ba2int(bits[-26:-22]):02}{ba2int(bits[-22:-17]):02}{ba2int(bits[-17:-12]):02}"
-                   f"{ba2int(bits[-12:-6]):02}{ba2int(bits[-6:]):02}")
+            txt = re.search(r"<info-time>([^<]+)</info-time>", xml_view(0x34, w)).group(1)
             r["back_equal"] = txt == t.strftime("%Y%m%d%H%M%S")
         except Exception as ex:  # noqa
             r["err"] = type(ex).__name__
